@@ -224,7 +224,13 @@ def fresh_repo(U, user, be, concurrent=2, cache_directory=None):
     return r
 
 
-def run_case(encrypted, caller, owners, refs, orphans, op, delays=None, prev=None, confirm=None):
+def run_case(encrypted, caller, owners, refs, orphans, op, delays=None, prev=None, confirm=None, loglevel=None):
+    """loglevel: None (default WARNING), 20 (-v) or 10 (-vv): what a command does must not depend on how much of it is logged (C08_g)."""
+    with rt.verbosity(loglevel):
+        return _run_case(encrypted, caller, owners, refs, orphans, op, delays, prev, confirm)
+
+
+def _run_case(encrypted, caller, owners, refs, orphans, op, delays=None, prev=None, confirm=None):
     U = users(encrypted)
     rt.determinism(7)
     objs, snaps = build_state(U, owners, refs, orphans)
@@ -404,8 +410,10 @@ def g_quick(k: int) -> bool:
         prev = [None, 'C', None, 'B', None, 'A'][(oc + bits + orph + opi) % 6]
         # every third delete goes through the confirmation prompt (answered y; every ninth: n)
         confirm = None if OPS[opi] == 'clean' else [None, None, 'y', None, 'y', None, None, 'y', 'n'][(oc + 2 * bits + orph) % 9]
-        ok, msg = run_case(True, 'A', owners, refs, ORPHANS[orph], OPS[opi], prev=prev, confirm=confirm)
-        tick('g_quick', [owners, refs, orph, OPS[opi], prev, confirm])
+        # every fourth vector runs as `-vv` (DEBUG), another fourth as `-v` (INFO)
+        loglevel = [None, 10, None, 20][(oc + bits + 2 * orph + opi) % 4]
+        ok, msg = run_case(True, 'A', owners, refs, ORPHANS[orph], OPS[opi], prev=prev, confirm=confirm, loglevel=loglevel)
+        tick('g_quick', [owners, refs, orph, OPS[opi], prev, confirm, loglevel])
         if not ok:
             _say(owners, refs, ORPHANS[orph], OPS[opi], msg)
         return ok
@@ -454,8 +462,9 @@ def g_unenc(k: int) -> bool:
     bits, orph, opi = digits(k, [64, 3, 5])
     with NoTracing():
         refs = _refs_from_bits(bits, 2, 3)
-        ok, msg = run_case(False, 'A', ['A', 'B'], refs, ORPHANS[orph], OPS[opi])
-        tick('g_unenc', [refs, orph, OPS[opi]])
+        loglevel = [None, 10, 20][(bits + orph + opi) % 3]
+        ok, msg = run_case(False, 'A', ['A', 'B'], refs, ORPHANS[orph], OPS[opi], loglevel=loglevel)
+        tick('g_unenc', [refs, orph, OPS[opi], loglevel])
         if not ok:
             _say(refs, ORPHANS[orph], OPS[opi], msg)
         return ok
